@@ -1,5 +1,15 @@
-"""Helper run in a fresh interpreter: load a file, validate, print the issue multiset."""
+"""Helper run in a fresh interpreter: load a file, validate, print the issue multiset.
+
+Two modes: one-shot (`python -m simkit.xproc <path> <backend>`) and a server
+(`python -m simkit.xproc --serve`) that answers one JSON request per line, so that
+a worker can keep two other interpreters (with other hash seeds) alive and ask them
+about every run instead of a small sample.  The server restores the import-time
+validation registry before every request: what it answers is a function of the
+request and the code, not of the requests before it.
+"""
 import json
+import os
+import subprocess
 import sys
 
 
@@ -19,19 +29,92 @@ def issues_of(doc):
     return out
 
 
-def main():
-    from . import boot  # noqa: F401
+def _answer(path, backend):
     import io
     import contextlib
     import warnings
     import odml
-    path, backend = sys.argv[1], sys.argv[2]
     with contextlib.redirect_stdout(io.StringIO()), contextlib.redirect_stderr(io.StringIO()), \
             warnings.catch_warnings():
         warnings.simplefilter("ignore")
         doc = odml.load(path, backend)
-        res = issues_of(doc)
-    print("XPROC " + json.dumps(res))
+        return issues_of(doc)
+
+
+def main():
+    from . import boot  # noqa: F401
+    if sys.argv[1:2] == ["--serve"]:
+        from . import seams
+        out = sys.stdout
+        for line in sys.stdin:
+            line = line.strip()
+            if not line:
+                continue
+            req = json.loads(line)
+            seams.fresh_validation_state()
+            try:
+                res = {"issues": _answer(req["path"], req["backend"])}
+            except Exception as exc:      # reported to the asking worker, which decides
+                res = {"error": "%s: %s" % (type(exc).__name__, str(exc)[:200])}
+            out.write("XPROC " + json.dumps(res) + "\n")
+            out.flush()
+        return
+    path, backend = sys.argv[1], sys.argv[2]
+    print("XPROC " + json.dumps(_answer(path, backend)))
+
+
+# ---- client side: two long-lived helpers per worker process ---------------------------------
+_HELPERS = {}
+HASHSEEDS = ("1", "987")
+
+
+def helpers():
+    """The pair of helper interpreters of this process (started on first use; they end when
+    their stdin is closed, i.e. when this process exits)."""
+    from .known import VERIF
+    pid = os.getpid()
+    pair = _HELPERS.get(pid)
+    if pair is None or any(p.poll() is not None for p in pair):
+        pair = []
+        for hashseed in HASHSEEDS:
+            env = dict(os.environ, PYTHONHASHSEED=hashseed)
+            pair.append(subprocess.Popen([sys.executable, "-m", "simkit.xproc", "--serve"],
+                                         cwd=VERIF, env=env, stdin=subprocess.PIPE,
+                                         stdout=subprocess.PIPE, stderr=subprocess.DEVNULL,
+                                         text=True, bufsize=1))
+        _HELPERS.clear()
+        _HELPERS[pid] = pair
+        import atexit
+        atexit.register(_shutdown, pid)
+    return pair
+
+
+def _shutdown(pid):
+    if os.getpid() != pid:
+        return
+    for proc in _HELPERS.pop(pid, []):
+        try:
+            proc.stdin.close()
+            proc.stdout.close()
+            proc.wait(timeout=5)
+        except Exception:
+            proc.kill()
+
+
+def ask(path, backend):
+    """Issue collections the two other interpreters report for the file (list of two)."""
+    outs = []
+    for proc in helpers():
+        proc.stdin.write(json.dumps({"path": path, "backend": backend}) + "\n")
+        proc.stdin.flush()
+        while True:
+            line = proc.stdout.readline()
+            if not line:
+                raise RuntimeError("xproc helper ended unexpectedly")
+            if line.startswith("XPROC "):
+                outs.append(json.loads(line[6:]))
+                break
+    return outs
 
 
 if __name__ == "__main__":
